@@ -397,3 +397,71 @@ func H_C16_rules_sequence() {
 	}
 	vReach("end")
 }
+
+// a rule set registered for a struct type applies to values of that type *wherever they occur*: every
+// way the object graph can hold one (value, pointers, slices, arrays, maps, pointers to collections,
+// nested collections, interface values)
+type vOPos struct {
+	A   string              `valid:"r1"`
+	In  vOIn                `valid:"exist"`
+	P   *vOIn               `valid:"exist"`
+	PP  **vOIn              `valid:"exist"`
+	L   []vOIn              `valid:"exist"`
+	LP  []*vOIn             `valid:"exist"`
+	A2  [2]vOIn             `valid:"exist"`
+	AP  [1]*vOIn            `valid:"exist"`
+	M   map[string]vOIn     `valid:"exist"`
+	MP  map[string]*vOIn    `valid:"exist"`
+	PL  *[]vOIn             `valid:"exist"`
+	LL  [][]vOIn            `valid:"exist"`
+	LM  []map[string]*vOIn  `valid:"exist"`
+	I   interface{}         `valid:"exist"`
+	R   *vOPos              `valid:"exist"`
+	Oth map[string]*vOOther `valid:"exist"`
+}
+
+func H_C16_scope_positions() {
+	vUNoFail = true
+	known := vGlobalRules()
+	mk := func() vOIn { return vOIn{A: "a", B: "b"} }
+	in1, in2, in3 := mk(), mk(), mk()
+	p2 := &in2
+	lst := []vOIn{mk()}
+	o := &vOPos{A: "x", In: mk(), P: &in1, PP: &p2, L: []vOIn{mk(), mk()}, LP: []*vOIn{&in3, nil}, A2: [2]vOIn{mk(), mk()},
+		AP: [1]*vOIn{{A: "a", B: "b"}}, M: map[string]vOIn{"k": mk()}, MP: map[string]*vOIn{"k": {A: "a", B: "b"}}, PL: &lst,
+		LL: [][]vOIn{{mk()}}, LM: []map[string]*vOIn{{"k": {A: "a", B: "b"}}}, Oth: map[string]*vOOther{"k": {A: "a", C: "c"}}}
+	switch vndChoice("iface", 3) {
+	case 1:
+		o.I = mk()
+	case 2:
+		o.I = &vOIn{A: "a", B: "b"}
+	}
+	if vndBool("rec") {
+		o.R = &vOPos{A: "y", LP: []*vOIn{{A: "a", B: "b"}}, MP: map[string]*vOIn{"q": {A: "a", B: "b"}}}
+	}
+	un := vC16RMs[vndChoice("unscoped", len(vC16RMs))]
+	si := vC16RMs[1+vndChoice("inner", 5)]
+	st := vC16RMs[vndChoice("other", 3)*2]
+	vs := NewVStruct()
+	r := vNewRef()
+	r.global = known
+	r.scoped = map[reflect.Type]RM{}
+	if un != nil {
+		vs.SetRule(vCopyRM(un))
+		r.unscoped = un
+	}
+	if vndBool("byPointer") {
+		vs.SetRule(vCopyRM(si), &vOIn{})
+	} else {
+		vs.SetRule(vCopyRM(si), vOIn{})
+	}
+	r.scoped[reflect.TypeOf(vOIn{})] = si
+	if st != nil {
+		vs.SetRule(vCopyRM(st), vOOther{})
+		r.scoped[reflect.TypeOf(vOOther{})] = st
+	}
+	err := vs.Valid(o)
+	r.top(o)
+	vCheckAgainstRef("C16 a scoped rule set reaches its type in every position", err, r)
+	vReach("end")
+}
